@@ -2110,16 +2110,24 @@ func (p *produceRequest) idempotent() bool { return p.producerID >= 0 }
 func (p *produceRequest) tryAddBatch(produceVersion int32, recBuf *recBuf, batch *recBatch) bool {
 	batchWireLength, flexible, topicIDs := batch.wireLengthForProduceVersion(produceVersion)
 	batchWireLength += 4 // int32 partition prefix
+	unknownVersion := produceVersion < 0 // not yet negotiated: account for the largest form of any version
+	if flexible || unknownVersion {
+		batchWireLength++ // the partition's (empty) tag section
+	}
 
 	if partitions, exists := p.batches.bs[recBuf.topic]; !exists {
 		if topicIDs {
-			batchWireLength += 16 + 1 // topic ID size, compact array len for 1 item (if we are using topic IDs, we are definitely flexible)
+			batchWireLength += 16 + 1 + 1 // topic ID size, compact array len for 1 item, topic tag section (if we are using topic IDs, we are definitely flexible)
 		} else {
 			lt := int32(len(recBuf.topic))
 			if flexible {
-				batchWireLength += uvarlen(len(recBuf.topic)) + lt + 1 // compact string len, topic, compact array len for 1 item
+				batchWireLength += uvarlen(len(recBuf.topic)) + lt + 1 + 1 // compact string len, topic, compact array len for 1 item, topic tag section
 			} else {
-				batchWireLength += 2 + lt + 4 // string len, topic, partition array len
+				topicLength := 2 + lt + 4 // string len, topic, partition array len
+				if unknownVersion && topicLength < 16+1+1 {
+					topicLength = 16 + 1 + 1 // the request may be written with topic IDs (v13+)
+				}
+				batchWireLength += topicLength
 			}
 		}
 	} else if flexible {
